@@ -271,7 +271,8 @@ func (hm *Manager) GetHooksInOrder(bindingType htypes.BindingType) ([]string, er
 			}
 		}
 
-		sort.Slice(hooks, func(i, j int) bool {
+		// Hooks are sorted by name here: use a stable sort to keep the alphabetical order of hooks with equal order.
+		sort.SliceStable(hooks, func(i, j int) bool {
 			return hooks[i].Config.OnStartup.Order < hooks[j].Config.OnStartup.Order
 		})
 	}
